@@ -96,6 +96,8 @@ def generate(rng, focus, tier="quick"):
     r = rng.random()
     if r < 0.3:
         fee = {"kind": "zero"}
+    elif r < 0.42:
+        fee = {"kind": "ticket", "fixed": rng.choice([0.5, 1.0, 9.99, 25.0]), "c": rng.choice([0.0, 1e-4, 1e-3])}
     else:
         rates = [0.0, 1e-4, 5e-4, 1e-3, 2.5e-3, 5e-3, 0.01, 0.05]
         fee = {"kind": "pct", "c": rng.choice(rates), "t": rng.choice(rates[:6] + [0.0, 0.0])}
@@ -278,6 +280,13 @@ def generate(rng, focus, tier="quick"):
             else:
                 amt = {"of": "master", "mul": round(rng.uniform(0.0, 0.9), 3), "add": 0.0}
             emit({"k": "awd", "amt": amt})
+        elif r < 0.935:
+            pid = rng.choice(sh["pids"])
+            a = rng.choice(assets)
+            emit({"k": "mark", "pid": pid, "asset": a, "price": max(0.01, round(sh["quotes"][a] * math.exp(rng.gauss(0, 0.05)), 4))})
+        elif r < 0.945:
+            emit({"k": "broker2", "pid": rng.choice(PIDS), "funds": rng.choice([1e3, 1e5, 77.7]),
+                  "asset": rng.choice(assets), "qty": _qty(rng)})
         elif r < 0.97 and len(sh["pids"]) < max_pf:
             pid = PIDS[len(sh["pids"])]
             sh["pids"].append(pid)
@@ -359,9 +368,30 @@ def _build(cfg):
     if fee["kind"] == "zero":
         s.fee = ZeroFeeModel()
         s.rate = Fraction(0)
+    elif fee["kind"] == "ticket":
+        # harness stub: a FeeModel subclass (the documented extension point) charging a fixed ticket
+        # amount plus a percentage, so that commissions are not proportional to the consideration
+        from qstrader.broker.fee_model.fee_model import FeeModel
+
+        class TicketFeeModel(FeeModel):
+            def __init__(self, fixed, pct):
+                self.fixed, self.pct = fixed, pct
+
+            def _calc_commission(self, asset, quantity, consideration, broker=None):
+                return self.fixed + self.pct * abs(consideration)
+
+            def _calc_tax(self, asset, quantity, consideration, broker=None):
+                return 0.0
+
+            def calc_total_cost(self, asset, quantity, consideration, broker=None):
+                return self._calc_commission(asset, quantity, consideration, broker) + \
+                    self._calc_tax(asset, quantity, consideration, broker)
+        s.fee = TicketFeeModel(fee["fixed"], fee["c"])
+        s.rate = frac(fee["c"])
     else:
         s.fee = PercentFeeModel(commission_pct=fee["c"], tax_pct=fee["t"])
         s.rate = frac(fee["c"]) + frac(fee["t"])
+    s.fixed_fee = float(fee.get("fixed", 0.0))
     t0 = ts(cfg["start"])
     s.exchange = SimulatedExchange(t0)
     s.ccy = cfg.get("ccy", "USD")
@@ -986,10 +1016,11 @@ class Exec(object):
             lo, hi = math.floor(abs(x) + 0.5 - 1e-9), math.ceil(abs(x) - 0.5 + 1e-9)
             cands = set([abs(round(x)), lo, hi]) if abs(abs(x) % 1.0 - 0.5) < 1e-6 else set([abs(round(x))])
             rate = float(s.rate)
-            okc = any(close(comm, rate * cn, scale=rate * cn, rel=1e-9, abs_=1e-9) for cn in cands)
+            fx = s.fixed_fee
+            okc = any(close(comm, fx + rate * cn, scale=fx + rate * cn, rel=1e-9, abs_=1e-9) for cn in cands)
             ctx.check("C05", okc, "commission_not_fee_model_of_consideration",
                       lambda: {"asset": a, "qty": q, "price": float(price), "commission": float(comm),
-                               "expected": [rate * cn for cn in sorted(cands)], "rate": rate},
+                               "expected": [fx + rate * cn for cn in sorted(cands)], "rate": rate, "fixed": fx},
                       sig="commission_not_fee_model_of_consideration")
             ctx.check("C05", float(comm) >= 0.0, "negative_commission", lambda: {"commission": float(comm)})
             if len(cands) > 1:
@@ -1060,6 +1091,56 @@ class Exec(object):
             self.refused("unknown_portfolio", lambda: b.get_portfolio_as_dict(pid), (KeyError,),
                          "get_portfolio_as_dict")
         return True
+
+    def op_mark(self, op):
+        """A legal price mark issued directly on the portfolio (C02: fills interleaved with marks)."""
+        s, m, ctx = self.s, self.m, self.ctx
+        pid, a = op["pid"], op["asset"]
+        if pid not in m.pfs or a not in m.pfs[pid].pos:
+            return False
+        if m.now < m.pfs[pid].clock or (m.last_tick is not None and m.now < m.last_tick):
+            return False
+        price = float(op["price"])
+        ok, exc = self._call(s.broker.portfolios[pid].update_market_value_of_asset, a, price, ts(m.now))
+        ctx.event("mark", pid, a, price, ok)
+        if not ok:
+            ctx.violate("C02", "valid_mark_refused", {"op": op, "exc": repr(exc)[:200]})
+            return False
+        m.pfs[pid].pos[a].last = price
+        ctx.probe("direct_price_mark")
+        return False
+
+    def op_broker2(self, op):
+        """A second, independent broker is created and used: nothing of the first may move (aliasing)."""
+        from qstrader.broker.simulated_broker import SimulatedBroker
+        from qstrader.execution.order import Order
+        s, m, ctx = self.s, self.m, self.ctx
+        before = snapshot(s)
+        try:
+            b2 = SimulatedBroker(ts(m.now), s.exchange, s.qb, account_id="other", base_currency=s.ccy,
+                                 initial_funds=op["funds"])
+            b2.create_portfolio(op["pid"], "other")
+            b2.subscribe_funds_to_portfolio(op["pid"], op["funds"] / 2.0)
+            b2.submit_order(op["pid"], Order(ts(m.now), op["asset"], op["qty"]))
+            b2.update(ts(m.now))
+            b2.withdraw_funds_from_account(op["funds"] / 4.0)
+        except Exception as e:
+            ctx.probe("second_broker_raised:" + type(e).__name__)
+        ctx.event("broker2")
+        ctx.probe("second_broker_instance_used")
+        after = snapshot(s)
+        if after != before:
+            diff = _snap_diff(before, after)
+            kinds = set(d.split(":")[0] for d in diff)
+            if kinds & set(["master", "cash", "hist"]):
+                ctx.violate("C01", "cash_changed_by_another_broker_instance", {"changed": diff},
+                            sig="cash_changed_by_another_broker_instance")
+            if "pos" in kinds:
+                ctx.violate("C02", "holdings_changed_by_another_broker_instance", {"changed": diff})
+            if "pend" in kinds:
+                ctx.violate("C04", "pending_orders_changed_by_another_broker_instance", {"changed": diff})
+            raise StopRun()
+        return False
 
     def op_ctor(self, op):
         from qstrader.broker.simulated_broker import SimulatedBroker
@@ -1465,9 +1546,10 @@ def simplifications(plan):
         p = copy.deepcopy(plan)
         p["cfg"]["fee"] = {"kind": "zero"}
         yield p
-        p = copy.deepcopy(plan)
-        p["cfg"]["fee"] = {"kind": "pct", "c": 0.01, "t": 0.0}
-        yield p
+        if cfg["fee"] != {"kind": "pct", "c": 0.01, "t": 0.0}:
+            p = copy.deepcopy(plan)
+            p["cfg"]["fee"] = {"kind": "pct", "c": 0.01, "t": 0.0}
+            yield p
     if cfg.get("np_quotes"):
         p = copy.deepcopy(plan)
         p["cfg"]["np_quotes"] = False
